@@ -20,8 +20,8 @@ def one(name):
     checks = [meta["property"]] + [c for c in meta.get("also_run", []) if c != meta["property"]]
     caught, missed = [], []
     for c in checks:
-        p = subprocess.run("TIER=%s TAIL=3 %s/tools/mutant.sh %s/patch.diff %s" % (tier, V, d, c), shell=True, stdout=subprocess.PIPE, stderr=subprocess.STDOUT, text=True)
-        (caught if p.returncode == 1 else missed).append("%s(rc=%d)" % (c, p.returncode))
+        p = subprocess.run("TIER=%s TAIL=3 %s/tools/mutant.sh %s/patch.diff %s" % (meta.get("recheck_tier", tier), V, d, c), shell=True, stdout=subprocess.PIPE, stderr=subprocess.STDOUT, text=True)
+        (caught if p.returncode == 1 else missed).append("%s(rc=%d%s)" % (c, p.returncode, ",thorough" if meta.get("recheck_tier") == "thorough" else ""))
     first = meta.get("first_outcome")
     if first is None:
         meta["first_outcome"] = {"caught_by": meta.get("caught_by", []), "missed_by": meta.get("missed_by", [])}
